@@ -274,20 +274,22 @@ RX == INSTANCE Regex
 TM == INSTANCE Time
 SX == INSTANCE ExprSyntax
 \* a number of seconds since the epoch as (day number, second of the day): digits divided by 86400 the long way (the seconds of the year 9999 are
-\* not a 32-bit number).  A fraction is only followed for positive dyadic numbers (the whole second is then the floor); the text is the whole
-\* number of seconds as %s prints it.
+\* not a 32-bit number).  A fraction is only followed for dyadic numbers (the whole second is then the floor); the text is the whole
+\* number of seconds as %s prints it (not used with a fraction).
 RECURSIVE LongDiv(_, _, _, _, _)
 LongDiv(ds, i, k, q, r) == IF i > Len(ds) THEN [q |-> q, r |-> r] ELSE LET n == r * 10 + ds[i] IN LongDiv(ds, i + 1, k, q * 10 + n \div k, n % k)
 TimeOf(x) ==
   LET whole == IF x.e >= 0 THEN x.d \o Zeros(x.e) ELSE IF Len(x.d) + x.e <= 0 THEN <<>> ELSE SubSeq(x.d, 1, Len(x.d) + x.e)
       frac == x.e < 0
-      small == Len(whole) <= 12 /\ (frac => (~x.neg /\ IsDy(x)))
-      qr == IF small THEN LongDiv(whole, 1, 86400, 0, 0) ELSE [q |-> 0, r |-> 0]
+      small == Len(whole) <= 12 /\ (frac => IsDy(x))
+      qr0 == IF small THEN LongDiv(whole, 1, 86400, 0, 0) ELSE [q |-> 0, r |-> 0]
+      \* the whole second of a time with a fraction is the one that has begun: the floor - for a time before the epoch one second further from it
+      qr == IF x.neg /\ frac THEN (IF qr0.r = 86399 THEN [q |-> qr0.q + 1, r |-> 0] ELSE [q |-> qr0.q, r |-> qr0.r + 1]) ELSE qr0
       z == IF ~x.neg THEN qr.q ELSE IF qr.r = 0 THEN -qr.q ELSE -qr.q - 1
       sod == IF ~x.neg \/ qr.r = 0 THEN qr.r ELSE 86400 - qr.r
       text == (IF x.neg /\ whole # <<>> THEN <<45>> ELSE <<>>) \o (IF whole = <<>> THEN <<48>> ELSE [i \in 1..Len(whole) |-> whole[i] + 48])
   IN [ok |-> small /\ z >= TM!MinDay /\ z <= TM!MaxDay, frac |-> frac, z |-> z, sod |-> sod, text |-> text]
-UsesFraction(fmt) == \E i \in 1..Len(TM!Items(fmt)) : TM!Items(fmt)[i].k = "spec" /\ TM!Items(fmt)[i].s \in {102, 43}
+UsesFraction(fmt) == \E i \in 1..Len(TM!Items(fmt)) : TM!Items(fmt)[i].k = "spec" /\ TM!Items(fmt)[i].s \in {102, 43, 115}
 SecondsOf(z, sod) == DecAdd(DecMul(DecOfInt(z), DecOfInt(86400)), DecOfInt(sod))
 \* the AST of a pattern text, if the context brings one (c.re: a sequence of [p |-> text, ast |-> AST of Regex.tla])
 ReOf(c, pat) == IF "re" \in DOMAIN c /\ \E k \in 1..Len(c.re) : c.re[k].p = pat
